@@ -1,12 +1,724 @@
-// Package c08: correspondence harness of C08 (stub: replaced when C08 is built).
+// Package c08: determinism of generation and independence of the invocation context.
+//
+// (S1) in-process through the verif hook: random operation sequences on one real typesMap over a
+// pool with mutually assignable named/unnamed types, each replayed 32x on fresh maps (the Go
+// runtime re-randomises map iteration every time); sortPlugins on shuffled listings of prefix
+// sets; the import block of printer.WriteTo for tables registered in shuffled orders.
+// (B) end to end: sha256 of derived.gen.go over repeated runs of packages built to request many
+// helpers from several plugins over mutually assignable types, and over invocation variants
+// (./..., listings in both orders, each package alone, from inside the directory, import paths).
 package c08
 
 import (
+	"bytes"
+	"crypto/sha256"
 	"fmt"
+	"go/token"
+	"go/types"
+	"os"
+	"path/filepath"
+	"regexp"
+	"sort"
+	"strings"
+	"sync"
 
+	"github.com/awalterschulze/goderive/derive"
+
+	"verifharness/internal/c11"
 	"verifharness/internal/hx"
 )
 
 func Run(cfg hx.Config) (*hx.Meta, error) {
-	return nil, fmt.Errorf("C08: harness not built yet")
+	meta := &hx.Meta{Property: "C08", Seed: cfg.Seed, Tier: cfg.Tier}
+	var lines []string
+	lines = append(lines, runOps(cfg, meta)...)
+	lines = append(lines, runSortPlugins(cfg, meta)...)
+	lines = append(lines, runImports(cfg, meta)...)
+	l, err := runE2E(cfg, meta)
+	if err != nil {
+		return nil, err
+	}
+	lines = append(lines, l...)
+	path := filepath.Join(cfg.Out, "c08.obs")
+	if err := os.WriteFile(path, []byte(strings.Join(lines, "\n")+"\n"), 0o644); err != nil {
+		return nil, err
+	}
+	meta.ObsFiles = append(meta.ObsFiles, path)
+	meta.Cases = len(lines)
+	return meta, nil
+}
+
+// ---------------------------------------------------------------------------------------
+// (S1a) operation sequences on a real typesMap
+// ---------------------------------------------------------------------------------------
+
+// Pool: type lists among which several are mutually assignable (named/unnamed slices and
+// maps), one-directionally assignable (chan int -> <-chan int, everything -> interface{}), or
+// unrelated.
+func Pool() []c11.TypeList {
+	pkg := types.NewPackage("p", "p")
+	named := func(n string, u types.Type) types.Type {
+		return types.NewNamed(types.NewTypeName(token.NoPos, pkg, n, nil), u, nil)
+	}
+	intT := types.Typ[types.Int]
+	sl := types.NewSlice(intT)
+	mp := types.NewMap(types.Typ[types.String], intT)
+	s1, s2 := named("S1", types.NewSlice(intT)), named("S2", types.NewSlice(intT))
+	m1 := named("M1", types.NewMap(types.Typ[types.String], intT))
+	a := named("A", types.NewStruct(nil, nil))
+	ls := [][]types.Type{
+		{s1}, {s2}, {sl}, {intT},
+		{types.NewChan(types.SendRecv, intT)}, {types.NewChan(types.RecvOnly, intT)},
+		{types.NewInterfaceType(nil, nil).Complete()},
+		{m1}, {mp}, {a},
+		{s1, s1}, {sl, sl}, {s2, s2},
+	}
+	var pool []c11.TypeList
+	for _, l := range ls {
+		pool = append(pool, c11.TypeList{Typs: l, Hint: c11.HintOf(l)})
+	}
+	return pool
+}
+
+type op struct {
+	kind string // set get gen togen done
+	name string
+	t    int
+}
+
+func (o op) sexp() string {
+	switch o.kind {
+	case "set":
+		return fmt.Sprintf("(set %s %d)", o.name, o.t)
+	case "get", "gen":
+		return fmt.Sprintf("(%s %d)", o.kind, o.t)
+	}
+	return "(" + o.kind + ")"
+}
+
+func poolIndex(pool []c11.TypeList, typs []types.Type) int {
+	for i, t := range pool {
+		if len(t.Typs) != len(typs) {
+			continue
+		}
+		same := true
+		for j := range typs {
+			if t.Typs[j] != typs[j] {
+				same = false
+			}
+		}
+		if same {
+			return i
+		}
+	}
+	return -1
+}
+
+// replay runs the operations on a fresh typesMap and renders the answers.
+func replay(pool []c11.TypeList, prefix string, reserved []string, a, d bool, ops []op) string {
+	res := map[string]struct{}{}
+	for _, r := range reserved {
+		res[r] = struct{}{}
+	}
+	tm := derive.VerifNewTypesMap(nil, prefix, res, a, d)
+	var b strings.Builder
+	b.WriteByte('(')
+	for i, o := range ops {
+		if i > 0 {
+			b.WriteByte(' ')
+		}
+		switch o.kind {
+		case "set":
+			n, err := tm.SetFuncName(o.name, pool[o.t].Typs...)
+			if err != nil {
+				e := c11.ErrSexp(0, err.Error()) // (err 0 kind ...) -> (err kind ...)
+				b.WriteString("(err" + strings.TrimPrefix(e, "(err 0"))
+			} else {
+				b.WriteString("(ok " + n + ")")
+			}
+		case "get":
+			b.WriteString("(name " + tm.GetFuncName(pool[o.t].Typs...) + ")")
+		case "gen":
+			func() {
+				defer func() {
+					if recover() != nil {
+						b.WriteString("(panic)")
+					}
+				}()
+				tm.Generating(pool[o.t].Typs...)
+				b.WriteString("(ok)")
+			}()
+		case "togen":
+			b.WriteByte('(')
+			for j, typs := range tm.ToGenerate() {
+				if j > 0 {
+					b.WriteByte(' ')
+				}
+				fmt.Fprint(&b, poolIndex(pool, typs))
+			}
+			b.WriteByte(')')
+		case "done":
+			if tm.Done() {
+				b.WriteByte('1')
+			} else {
+				b.WriteByte('0')
+			}
+		}
+	}
+	b.WriteByte(')')
+	return b.String()
+}
+
+func b01(b bool) int {
+	if b {
+		return 1
+	}
+	return 0
+}
+
+func runOps(cfg hx.Config, meta *hx.Meta) []string {
+	r := hx.NewRand(cfg.Seed ^ 0xC08)
+	pool := Pool()
+	prefix := "deriveEqual"
+	nseq, replays := 3000, 32
+	if cfg.Tier == "thorough" {
+		nseq = 20000
+	}
+	names := []string{prefix, prefix + "_", prefix + "S1", prefix + "S2", prefix + "X", prefix + "_1"}
+	var seqs [][]op
+	var flags [][2]bool
+	var reserveds [][]string
+	// corpus: the S1/S2/[]int witness and the asymmetric chan / interface cases, first
+	corpus := [][]op{
+		{{"set", prefix + "S1", 0}, {"set", prefix + "S2", 1}, {"get", "", 2}, {"gen", "", 2}, {"togen", "", 0}, {"done", "", 0}},
+		{{"set", prefix + "S1", 10}, {"set", prefix + "S2", 12}, {"get", "", 11}, {"get", "", 11}, {"togen", "", 0}},
+		{{"set", prefix + "X", 5}, {"set", prefix, 6}, {"get", "", 4}, {"gen", "", 4}, {"done", "", 0}},
+		{{"set", prefix + "S1", 7}, {"set", prefix + "X", 6}, {"get", "", 8}, {"set", prefix + "_", 8}, {"togen", "", 0}},
+	}
+	for _, c := range corpus {
+		for _, f := range [][2]bool{{false, false}, {true, true}} {
+			seqs = append(seqs, c)
+			flags = append(flags, f)
+			reserveds = append(reserveds, []string{})
+		}
+	}
+	for i := 0; i < nseq; i++ {
+		n := 3 + r.Intn(10)
+		// a working subset of the pool makes collisions between related types frequent
+		sub := make([]int, 0, 5)
+		for len(sub) < 2+r.Intn(4) {
+			sub = append(sub, r.Intn(len(pool)))
+		}
+		var ops []op
+		for j := 0; j < n; j++ {
+			t := hx.Pick(r, sub)
+			switch k := r.Intn(10); {
+			case k < 4:
+				ops = append(ops, op{"set", hx.Pick(r, names), t})
+			case k < 7:
+				ops = append(ops, op{"get", "", t})
+			case k < 8:
+				ops = append(ops, op{"gen", "", t})
+			case k < 9:
+				ops = append(ops, op{"togen", "", 0})
+			default:
+				ops = append(ops, op{"done", "", 0})
+			}
+		}
+		seqs = append(seqs, ops)
+		flags = append(flags, [2]bool{r.Bool(), r.Bool()})
+		if r.Intn(3) == 0 {
+			reserveds = append(reserveds, []string{prefix + "_", prefix + "_S"})
+		} else {
+			reserveds = append(reserveds, []string{})
+		}
+	}
+	lines := make([]string, len(seqs))
+	var mu sync.Mutex
+	hx.Parallel(len(seqs), 8, func(i int) {
+		ops := seqs[i]
+		// user-spelled names must not be reserved (an identifier resolves to one object)
+		resv := reserveds[i]
+		for _, o := range ops {
+			for _, x := range resv {
+				if o.kind == "set" && o.name == x {
+					resv = []string{}
+				}
+			}
+		}
+		ctx := &c11.Ctx{Pool: pool, Prefixes: []string{prefix}, Reserved: resv}
+		distinct := []string{}
+		seen := map[string]bool{}
+		for k := 0; k < replays; k++ {
+			t := replay(pool, prefix, resv, flags[i][0], flags[i][1], ops)
+			if !seen[t] {
+				seen[t] = true
+				distinct = append(distinct, t)
+			}
+		}
+		var ob strings.Builder
+		ob.WriteByte('(')
+		for j, o := range ops {
+			if j > 0 {
+				ob.WriteByte(' ')
+			}
+			ob.WriteString(o.sexp())
+		}
+		ob.WriteByte(')')
+		lines[i] = fmt.Sprintf("(ops %s (flags %d %d) %s (answers %s))", ctx.Sexp(), b01(flags[i][0]), b01(flags[i][1]),
+			ob.String(), strings.Join(distinct, " "))
+		mu.Lock()
+		if len(distinct) > 1 {
+			meta.Count("ops/sequences with more than one answer trace over 32 replays")
+		} else {
+			meta.Count("ops/sequences with one answer trace over 32 replays")
+		}
+		mu.Unlock()
+	})
+	meta.Sample(hx.Truncate(lines[0], 1200))
+	return lines
+}
+
+// ---------------------------------------------------------------------------------------
+// (S1b) sortPlugins
+// ---------------------------------------------------------------------------------------
+
+var reNewPlugin = regexp.MustCompile(`derive\.NewPlugin\("(\w+)",\s*"(\w+)"`)
+
+func defaultPrefixes(repo string) []string {
+	var out []string
+	files, _ := filepath.Glob(filepath.Join(repo, "plugin", "*", "*.go"))
+	for _, f := range files {
+		b, err := os.ReadFile(f)
+		if err != nil {
+			continue
+		}
+		for _, m := range reNewPlugin.FindAllStringSubmatch(string(b), -1) {
+			out = append(out, m[2])
+		}
+	}
+	sort.Strings(out)
+	var u []string
+	for i, s := range out {
+		if i == 0 || s != out[i-1] {
+			u = append(u, s)
+		}
+	}
+	return u
+}
+
+func runSortPlugins(cfg hx.Config, meta *hx.Meta) []string {
+	r := hx.NewRand(cfg.Seed ^ 0x50F7)
+	def := defaultPrefixes(cfg.Repo)
+	sets := [][]string{def}
+	var glob []string
+	for _, p := range def {
+		glob = append(glob, strings.Replace(p, "derive", "gen", 1))
+	}
+	sets = append(sets, glob)
+	sets = append(sets, []string{"d", "de", "der", "deriveS", "deriveSo", "deriveSort", "deriveSorted", "deriveSet", "deriveSeq", "x", "y", "zz", "za"})
+	nsets, nperm := 6, 12
+	if cfg.Tier == "thorough" {
+		nsets, nperm = 40, 40
+	}
+	for i := 0; i < nsets; i++ {
+		// random per-plugin overrides: short prefixes of equal lengths, nested prefixes
+		seen := map[string]bool{}
+		var s []string
+		for len(s) < 4+r.Intn(12) {
+			n := 1 + r.Intn(4)
+			var b strings.Builder
+			for j := 0; j < n; j++ {
+				b.WriteByte("abS"[r.Intn(3)])
+			}
+			p := b.String()
+			if r.Intn(3) == 0 && len(s) > 0 {
+				p = hx.Pick(r, s) + p
+			}
+			if !seen[p] {
+				seen[p] = true
+				s = append(s, p)
+			}
+		}
+		sets = append(sets, s)
+	}
+	var lines []string
+	for si, set := range sets {
+		if len(set) == 0 {
+			continue
+		}
+		var first string
+		for k := 0; k < nperm; k++ {
+			in := append([]string(nil), set...)
+			if k > 0 {
+				hx.Shuffle(r, in)
+			}
+			ps := make([]derive.Plugin, len(in))
+			for i, p := range in {
+				ps[i] = derive.NewPlugin(fmt.Sprintf("n%d", i), p, nil)
+			}
+			derive.VerifSortPlugins(ps)
+			out := make([]string, len(ps))
+			for i, p := range ps {
+				out[i] = p.GetPrefix()
+			}
+			res := strings.Join(out, " ")
+			if k == 0 {
+				first = res
+			} else if res != first {
+				meta.AddDirect(hx.Direct{Class: "c08-sortplugins-order", What: "sortPlugins gives different results for two listings of the same prefixes",
+					Cmd: "sortPlugins", Output: "listing: " + strings.Join(in, " ") + "\nresult:  " + res + "\nbefore:  " + first})
+			}
+			lines = append(lines, fmt.Sprintf("(sortplugins (%s) (%s))", strings.Join(in, " "), res))
+		}
+		meta.Count(fmt.Sprintf("sortplugins/set %d of %d prefixes x %d listings", si, len(set), nperm))
+	}
+	meta.Sample(hx.Truncate(lines[len(lines)-1], 600))
+	return lines
+}
+
+// ---------------------------------------------------------------------------------------
+// (S1c) printer.WriteTo import block
+// ---------------------------------------------------------------------------------------
+
+var reImportLine = regexp.MustCompile(`^\t(?:(\S+) )?"([^"]+)"$`)
+
+func runImports(cfg hx.Config, meta *hx.Meta) []string {
+	r := hx.NewRand(cfg.Seed ^ 0x1A907)
+	paths := []string{"bytes", "fmt", "strings", "sort", "strconv", "unsafe", "math", "reflect", "github.com/x/y", "github.com/x/z", "a/b/c", "a/b/d", "zz", "m/a", "m/b"}
+	ntab, nrep := 40, 8
+	if cfg.Tier == "thorough" {
+		ntab, nrep = 400, 16
+	}
+	var lines []string
+	for i := 0; i < ntab; i++ {
+		n := 1 + r.Intn(7)
+		ps := append([]string(nil), paths...)
+		hx.Shuffle(r, ps)
+		ps = ps[:n]
+		type pair struct{ alias, path string }
+		var tab []pair
+		used := map[string]bool{}
+		for _, p := range ps {
+			alias := p[strings.LastIndex(p, "/")+1:]
+			if r.Intn(4) == 0 {
+				alias = "q" + alias
+			}
+			if used[alias] {
+				alias = alias + fmt.Sprint(len(tab))
+			}
+			used[alias] = true
+			tab = append(tab, pair{alias, p})
+		}
+		var first string
+		for k := 0; k < nrep; k++ {
+			in := append([]pair(nil), tab...)
+			hx.Shuffle(r, in)
+			pr := derive.VerifNewPrinter("p")
+			for _, e := range in {
+				pr.NewImport(e.alias, e.path)()
+			}
+			pr.P("var x = 1")
+			var buf bytes.Buffer
+			pr.WriteTo(&buf)
+			var block []string
+			inBlock := false
+			for _, l := range strings.Split(buf.String(), "\n") {
+				if l == "import (" {
+					inBlock = true
+					continue
+				}
+				if inBlock && l == ")" {
+					break
+				}
+				if inBlock {
+					m := reImportLine.FindStringSubmatch(l)
+					if m == nil {
+						block = append(block, "(unparsed)")
+					} else if m[1] == "" {
+						block = append(block, "("+m[2]+")")
+					} else {
+						block = append(block, "("+m[1]+" "+m[2]+")")
+					}
+				}
+			}
+			res := strings.Join(block, " ")
+			if k == 0 {
+				first = res
+			} else if res != first {
+				meta.AddDirect(hx.Direct{Class: "c08-imports-order", What: "the import block differs between two runs over the same import table",
+					Cmd: "printer.WriteTo", Output: res + "\nvs\n" + first})
+			}
+			var ib strings.Builder
+			for j, e := range in {
+				if j > 0 {
+					ib.WriteByte(' ')
+				}
+				ib.WriteString("(" + e.alias + " " + e.path + ")")
+			}
+			lines = append(lines, fmt.Sprintf("(imports (%s) (%s))", ib.String(), res))
+		}
+		meta.Count(fmt.Sprintf("imports/tables of %d", n))
+	}
+	meta.Sample(hx.Truncate(lines[0], 600))
+	return lines
+}
+
+// ---------------------------------------------------------------------------------------
+// (B) end to end: bytes of derived.gen.go over runs and invocation variants
+// ---------------------------------------------------------------------------------------
+
+// genPackage writes a package whose derive calls request many helpers from several plugins over
+// mutually assignable named and unnamed types.
+func genPackage(r *hx.Rand, name string, imp string) string {
+	var b strings.Builder
+	fmt.Fprintf(&b, "package %s\n\n", name)
+	if imp != "" {
+		fmt.Fprintf(&b, "import %q\n\n", imp)
+	}
+	b.WriteString("type S1 []int\n\ntype S2 []int\n\ntype M1 map[string]int\n\ntype M2 map[string]int\n\ntype L1 []string\n\ntype L2 []string\n\n")
+	fieldTypes := []string{"[]int", "S1", "S2", "map[string]int", "M1", "M2", "[]string", "L1", "L2", "int", "string", "*int", "[][]int", "[]S1", "map[string][]int", "[2]int"}
+	nst := 2 + r.Intn(4)
+	for i := 0; i < nst; i++ {
+		fmt.Fprintf(&b, "type T%d struct {\n", i)
+		nf := 2 + r.Intn(6)
+		for j := 0; j < nf; j++ {
+			ft := hx.Pick(r, fieldTypes)
+			if r.Intn(6) == 0 {
+				ft = fmt.Sprintf("*T%d", r.Intn(nst))
+			}
+			fmt.Fprintf(&b, "\tF%d %s\n", j, ft)
+		}
+		if imp != "" && i == 0 {
+			fmt.Fprintf(&b, "\tExt *%s.T0\n", filepath.Base(imp))
+		}
+		b.WriteString("}\n\n")
+	}
+	// calls: the named twins first or last (registration order matters for the old nameOf)
+	var calls []string
+	twins := []string{
+		"deriveEqualS1(S1{}, S1{})", "deriveEqualS2(S2{}, S2{})",
+		"deriveCompareS2(S2{}, S2{})", "deriveCompareS1(S1{}, S1{})",
+		"deriveHashM1(M1{})", "deriveHashM2(M2{})",
+		"deriveEqualL2(L2{}, L2{})", "deriveEqualL1(L1{}, L1{})",
+		"deriveKeysM2(M2{})", "deriveKeysM1(M1{})",
+		"deriveSortI([]int{})", "deriveSortS([]string{})",
+	}
+	for _, t := range twins {
+		if r.Intn(4) != 0 {
+			calls = append(calls, t)
+		}
+	}
+	plugs := []string{"deriveEqualT%d(&T%d{}, &T%d{})", "deriveCompareT%d(&T%d{}, &T%d{})", "deriveHashT%d(&T%d{})", "deriveDeepCopyT%d(&T%d{}, &T%d{})", "deriveCloneT%d(&T%d{})", "deriveGoStringT%d(&T%d{})"}
+	for i := 0; i < nst; i++ {
+		for _, p := range plugs {
+			if r.Intn(3) != 0 {
+				n := strings.Count(p, "%d")
+				args := make([]interface{}, n)
+				for k := range args {
+					args[k] = i
+				}
+				calls = append(calls, fmt.Sprintf(p, args...))
+			}
+		}
+	}
+	if r.Bool() {
+		calls = append(calls, "deriveUnique([]int{})", "deriveSet([]string{})", "deriveContains([]int{}, 1)", "deriveUnion([]int{}, []int{})")
+	}
+	hx.Shuffle(r, calls)
+	b.WriteString("func use() {\n")
+	for _, c := range calls {
+		if strings.HasPrefix(c, "deriveDeepCopy") {
+			fmt.Fprintf(&b, "\t%s\n", c)
+		} else {
+			fmt.Fprintf(&b, "\t_ = %s\n", c)
+		}
+	}
+	b.WriteString("}\n")
+	return b.String()
+}
+
+type variant struct {
+	name string
+	dir  string // relative to the module root
+	args []string
+}
+
+func runE2E(cfg hx.Config, meta *hx.Meta) ([]string, error) {
+	r := hx.NewRand(cfg.Seed ^ 0xE2E08)
+	nmod, nruns := 10, 8
+	if cfg.Tier == "thorough" {
+		nmod, nruns = 40, 64
+	}
+	var lines []string
+	var mu sync.Mutex
+	// the S1/S2/[]int witness of the pinned nameOf, as a package (regression corpus)
+	witness := "package a\n\ntype S1 []int\n\ntype S2 []int\n\ntype T struct {\n\tX []int\n}\n\nfunc f(a, b S1, c, d S2, e, g *T) bool {\n\treturn deriveEqualS1(a, b) && deriveEqualS2(c, d) && deriveEqualT(e, g)\n}\n"
+	mods := make([]map[string]string, 0, nmod+1)
+	mods = append(mods, map[string]string{"a/a.go": witness, "b/b.go": strings.Replace(witness, "package a", "package b", 1)})
+	// regression corpus: every sub-directory of corpus/C08 is a package `a` (a copy is package b)
+	if ents, err := os.ReadDir(cfg.Corpus); err == nil {
+		for _, e := range ents {
+			if !e.IsDir() {
+				continue
+			}
+			src, err := os.ReadFile(filepath.Join(cfg.Corpus, e.Name(), "a.go"))
+			if err != nil {
+				continue
+			}
+			mods = append(mods, map[string]string{"a/a.go": string(src), "b/b.go": strings.Replace(string(src), "package a", "package b", 1)})
+		}
+	}
+	ncorpus := len(mods)
+	for i := 0; i < nmod; i++ {
+		rr := r.Fork(uint64(i))
+		m := map[string]string{
+			"a/a.go": genPackage(rr, "a", ""),
+			"b/b.go": genPackage(rr, "b", "m/a"),
+			"c/c.go": genPackage(rr, "c", ""),
+		}
+		mods = append(mods, m)
+	}
+	hx.Parallel(len(mods), 8, func(mi int) {
+		files := mods[mi]
+		root := filepath.Join(cfg.Work, fmt.Sprintf("c08-mod%d", mi), "m")
+		os.MkdirAll(root, 0o755)
+		os.WriteFile(filepath.Join(root, "go.mod"), []byte("module m\n\ngo 1.24\n"), 0o644)
+		hx.WriteFiles(root, files)
+		var pkgs []string
+		for f := range files {
+			pkgs = append(pkgs, filepath.Dir(f))
+		}
+		sort.Strings(pkgs)
+		rel := func(ps []string) []string {
+			var o []string
+			for _, p := range ps {
+				o = append(o, "./"+p)
+			}
+			return o
+		}
+		rev := func(ps []string) []string {
+			o := append([]string(nil), ps...)
+			for i, j := 0, len(o)-1; i < j; i, j = i+1, j-1 {
+				o[i], o[j] = o[j], o[i]
+			}
+			return o
+		}
+		imp := func(ps []string) []string {
+			var o []string
+			for _, p := range ps {
+				o = append(o, "m/"+p)
+			}
+			return o
+		}
+		var variants []variant
+		for k := 0; k < nruns; k++ {
+			variants = append(variants, variant{fmt.Sprintf("run%d ./...", k), ".", []string{"./..."}})
+		}
+		variants = append(variants,
+			variant{"listed", ".", rel(pkgs)},
+			variant{"listed-reversed", ".", rel(rev(pkgs))},
+			variant{"import-paths", ".", imp(pkgs)},
+			variant{"import-paths-reversed", ".", imp(rev(pkgs))},
+		)
+		for _, p := range pkgs {
+			variants = append(variants,
+				variant{"alone ./" + p, ".", []string{"./" + p}},
+				variant{"alone m/" + p, ".", []string{"m/" + p}},
+				variant{"inside " + p, p, []string{"."}},
+			)
+		}
+		// per package: sha -> first variant that produced it (and the bytes)
+		type seenT struct {
+			variant string
+			text    string
+		}
+		seen := map[string]map[string]seenT{}
+		exits := map[string]map[int]string{}
+		nrun := 0
+		for _, v := range variants {
+			for _, p := range pkgs {
+				os.Remove(filepath.Join(root, p, "derived.gen.go"))
+			}
+			g := hx.Goderive(cfg.Goderive, filepath.Join(root, v.dir), v.args...)
+			nrun++
+			if g.TimedOut {
+				// a hang is reported once; the remaining invocations of this module are skipped
+				// (each would cost another 30 s)
+				fs := map[string]string{"go.mod": "module m\n\ngo 1.24\n"}
+				for f, t := range files {
+					fs[f] = t
+				}
+				mu.Lock()
+				meta.AddDirect(hx.Direct{Class: "c08-hang", What: "goderive does not terminate on a package with mutually assignable named types (" + v.name + ")",
+					Files: fs, Cmd: "goderive " + strings.Join(v.args, " "), Output: hx.Truncate(g.Out, 1500)})
+				meta.GoderiveRuns += nrun
+				mu.Unlock()
+				return
+			}
+			// which packages did this variant address?
+			addressed := pkgs
+			if strings.HasPrefix(v.name, "alone ") || strings.HasPrefix(v.name, "inside ") {
+				f := strings.Fields(v.name)[1]
+				f = strings.TrimPrefix(strings.TrimPrefix(f, "./"), "m/")
+				addressed = []string{f}
+			}
+			for _, p := range addressed {
+				b, err := os.ReadFile(filepath.Join(root, p, "derived.gen.go"))
+				text := string(b)
+				if err != nil {
+					text = fmt.Sprintf("<no derived.gen.go; goderive exit %d>\n%s", g.Exit, hx.Truncate(g.Out, 1500))
+					if g.Exit != 0 && len(addressed) > 1 {
+						// a failing multi-package invocation stops at the first failing package, in
+						// unspecified order: which siblings were written is not determined (DESIGN C08)
+						continue
+					}
+				}
+				h := fmt.Sprintf("%x", sha256.Sum256([]byte(text)))
+				if err != nil {
+					h = fmt.Sprintf("exit%d", g.Exit)
+				}
+				if seen[p] == nil {
+					seen[p] = map[string]seenT{}
+					exits[p] = map[int]string{}
+				}
+				if _, ok := seen[p][h]; !ok {
+					seen[p][h] = seenT{v.name, text}
+				}
+			}
+		}
+		mu.Lock()
+		defer mu.Unlock()
+		meta.GoderiveRuns += nrun
+		meta.Packages += len(pkgs)
+		for _, p := range pkgs {
+			cls := "generated"
+			if mi < ncorpus {
+				cls = "corpus-witness"
+			}
+			lines = append(lines, fmt.Sprintf("(runs %s %d %d)", cls, len(variants), len(seen[p])))
+			meta.Count(fmt.Sprintf("e2e/%s package: %d invocations", cls, len(variants)))
+			if len(seen[p]) > 1 {
+				fs := map[string]string{"go.mod": "module m\n\ngo 1.24\n"}
+				for f, t := range files {
+					fs[f] = t
+				}
+				var what []string
+				k := 0
+				for _, s := range seen[p] {
+					fs[fmt.Sprintf("%s/derived.gen.go.%d", p, k)] = s.text
+					what = append(what, s.variant)
+					k++
+				}
+				sort.Strings(what)
+				meta.AddDirect(hx.Direct{Class: "c08-bytes-differ",
+					What:   fmt.Sprintf("derived.gen.go of package %s differs between invocations of goderive on identical sources (%d distinct outputs)", p, len(seen[p])),
+					Files:  fs,
+					Cmd:    "goderive " + strings.Join(what, "  |  goderive "),
+					Output: "first invocations producing each distinct output: " + strings.Join(what, "; ")})
+			}
+		}
+	})
+	sort.Strings(lines)
+	return lines, nil
 }
